@@ -341,7 +341,23 @@ func runC05(r *Runner, g *Gen, tier string) string {
 		}
 		r.Do(codecOp("laws", cfg, t, "", v.Sexp(), A(hx(tags[g.r.Intn(len(tags))]))), nontrivialVal(t, v), "laws")
 	}
-	return "same generators as C01 (values without multi-entry maps); op = Codec.Size/Append with nil and non-nil tag and Read of the untagged body, called on the codec from CodecForType"
+	// the exported BigQuery timestamp codec (not reachable from CodecForType)
+	secs := []int64{0, 1, -1, 1700000000, -62135596800, 253402300799, 2147483647, 2147483648, -2208988800, 9223372036854, -9223372036854}
+	nsecs := []int64{0, 1, 999, 1000, 1001, 999999, 1000000, 123456789, 999999000, 999999999}
+	for _, s := range secs {
+		for _, ns := range nsecs {
+			r.Do(L(A("bq"), A(fmt.Sprint(s)), A(fmt.Sprint(ns)), A(hx(tags[g.r.Intn(len(tags))])), A(g.r.Pick("x", "x07", "xff01"))), true, "bq.boundary")
+		}
+	}
+	for i := 0; i < scale(tier, 300, 20000); i++ {
+		s := int64(g.r.U64()>>uint(g.r.Intn(64))) % 9223372036854
+		if g.r.Bool() {
+			s = -s
+		}
+		r.Do(L(A("bq"), A(fmt.Sprint(s)), A(fmt.Sprint(g.r.Intn(1000000000))), A(hx(tags[g.r.Intn(len(tags))])), A("x")), true, "bq.random")
+		r.Do(L(A("bqread"), A(hx(g.r.Bytes(g.r.Intn(12))))), true, "bqread.hostile")
+	}
+	return "same generators as C01 (values without multi-entry maps); op = Codec.Size/Append with nil and non-nil tag and Read of the untagged body, called on the codec from CodecForType; plus the exported BQTimestampCodec on boundary and random times and hostile bytes"
 }
 
 // ---- C09: explicit presence ------------------------------------------------------
